@@ -1103,11 +1103,45 @@ def _total_test(e: ast.AST) -> bool:
     return True
 
 
+def _is_count_expr(e: ast.AST, int_names=frozenset()) -> bool:
+    """an integer by construction: lengths, integer literals, sums / differences of those"""
+    if isinstance(e, ast.Constant):
+        return isinstance(e.value, int) and not isinstance(e.value, bool)
+    if isinstance(e, ast.Call) and isinstance(e.func, ast.Name) and e.func.id == 'len' and len(e.args) == 1 and not e.keywords:
+        return True
+    if isinstance(e, ast.Name):
+        return e.id in int_names
+    if isinstance(e, ast.BinOp) and isinstance(e.op, (ast.Add, ast.Sub)):
+        return _is_count_expr(e.left, int_names) and _is_count_expr(e.right, int_names)
+    if isinstance(e, ast.UnaryOp) and isinstance(e.op, ast.USub):
+        return _is_count_expr(e.operand, int_names)
+    return False
+
+
 class _CmpDir(ast.NodeTransformer):
+    int_names = frozenset()
+
     def visit_UnaryOp(self, node: ast.UnaryOp):
         self.generic_visit(node)
         if isinstance(node.op, ast.UAdd) and _is_num_literal(node.operand):
             return node.operand
+        if isinstance(node.op, ast.Not) and isinstance(node.operand, ast.Compare) and len(node.operand.ops) == 1:
+            c = node.operand
+            l, r, op = c.left, c.comparators[0], c.ops[0]
+            if isinstance(op, (ast.Eq, ast.NotEq)):
+                # `not a == b` is `a != b` (also for nan)
+                return _fix(ast.Compare(left=l, ops=[ast.NotEq() if isinstance(op, ast.Eq) else ast.Eq()], comparators=[r]), node)
+            if isinstance(op, (ast.Lt, ast.LtE)):
+                # a cursor against a count (a length, give or take a literal): integers are totally ordered, `not a < b` is `b <= a`
+                def cursor(e):
+                    return isinstance(e, ast.Name) or (isinstance(e, ast.BinOp) and isinstance(e.op, (ast.Add, ast.Sub))
+                                                       and isinstance(e.left, ast.Name) and _is_count_expr(e.right))
+                has_len = any(isinstance(x, ast.Call) and isinstance(x.func, ast.Name) and x.func.id == 'len' for x in ast.walk(c)) \
+                    or any(isinstance(x, ast.Name) and x.id in self.int_names for x in ast.walk(c))
+                if has_len and ((_is_count_expr(l, self.int_names) and cursor(r)) or (_is_count_expr(r, self.int_names) and cursor(l))
+                                or (_is_count_expr(l, self.int_names) and _is_count_expr(r, self.int_names))):
+                    nop = ast.LtE() if isinstance(op, ast.Lt) else ast.Lt()
+                    return _fix(ast.Compare(left=r, ops=[nop], comparators=[l]), node)
         return node
 
     def visit_BinOp(self, node: ast.BinOp):
@@ -1119,6 +1153,27 @@ class _CmpDir(ast.NodeTransformer):
 
     def visit_Call(self, node: ast.Call):
         self.generic_visit(node)
+        if isinstance(node.func, ast.Name) and node.func.id == 'reversed' and len(node.args) == 1 and not node.keywords \
+                and isinstance(node.args[0], ast.Call) and isinstance(node.args[0].func, ast.Name) \
+                and node.args[0].func.id == 'range' and not node.args[0].keywords and len(node.args[0].args) in (1, 2) \
+                and not any(isinstance(a_, ast.Starred) for a_ in node.args[0].args):
+            # `reversed(range(a, b))` counts b-1, b-2, ..., a: `range(b - 1, a - 1, -1)`
+            r_ = node.args[0].args
+            lo_, hi_ = (ast.Constant(value=0), r_[0]) if len(r_) == 1 else (r_[0], r_[1])
+
+            def minus_one(e_):
+                if isinstance(e_, ast.Constant) and type(e_.value) is int:
+                    v_ = e_.value - 1
+                    return ast.Constant(value=v_) if v_ >= 0 else ast.UnaryOp(op=ast.USub(), operand=ast.Constant(value=-v_))
+                return ast.BinOp(left=e_, op=ast.Sub(), right=ast.Constant(value=1))
+            new_ = ast.Call(func=ast.Name(id='range', ctx=ast.Load()),
+                            args=[minus_one(hi_), minus_one(lo_), ast.UnaryOp(op=ast.USub(), operand=ast.Constant(value=1))], keywords=[])
+            return _fix(new_, node)
+        if isinstance(node.func, ast.Name) and node.func.id in ('max', 'min', 'sum', 'sorted', 'list', 'tuple') \
+                and len(node.args) >= 1 and isinstance(node.args[0], ast.GeneratorExp):
+            # a generator that is consumed at once by an eager reducer is the list of its elements
+            g_ = node.args[0]
+            node.args[0] = ast.copy_location(ast.ListComp(elt=g_.elt, generators=g_.generators), g_)
         if isinstance(node.func, ast.Name) and node.func.id in ('max', 'min') and len(node.args) == 1 \
                 and not node.keywords and isinstance(node.args[0], (ast.List, ast.Tuple)) \
                 and len(node.args[0].elts) >= 2 and not any(isinstance(e, ast.Starred) for e in node.args[0].elts):
@@ -3083,6 +3138,25 @@ def _append_loops_to_comprehension(fn: ast.FunctionDef) -> bool:
                 continue
             for b in _blocks_of(st):
                 visit(b)
+        # (the empty list may be initialised further up in the block, as long as nothing in between mentions it)
+        k = 0
+        moved = set()
+        while k + 1 < len(block):
+            a = block[k]
+            if isinstance(a, ast.Assign) and len(a.targets) == 1 and isinstance(a.targets[0], ast.Name) and id(a) not in moved \
+                    and isinstance(a.value, ast.List) and not a.value.elts and not isinstance(block[k + 1], ast.For):
+                moved.add(id(a))
+                L0 = a.targets[0].id
+                j = k + 1
+                while j < len(block) and not any(isinstance(n, ast.Name) and n.id == L0 for n in ast.walk(block[j])) \
+                        and not isinstance(block[j], (ast.FunctionDef, ast.ClassDef)):
+                    j += 1
+                if j < len(block) and isinstance(block[j], ast.For) and j > k + 1 \
+                        and sum(1 for n in ast.walk(block[j]) if isinstance(n, ast.Name) and n.id == L0) == 1 \
+                        and build(block[j], L0, []) is not None:
+                    block.insert(j - 1, block.pop(k))
+                    continue
+            k += 1
         k = 0
         while k + 1 < len(block):
             a, b = block[k], block[k + 1]
@@ -3096,6 +3170,15 @@ def _append_loops_to_comprehension(fn: ast.FunctionDef) -> bool:
                     # the temporaries and loop variables must not be read behind the nest
                     local_names = {v for v, _ in env} | {n.id for g in gens for n in ast.walk(g.target) if isinstance(n, ast.Name)}
                     nest_nodes = {id(n) for n in ast.walk(b)}
+                    # (a comprehension elsewhere that binds the same name has a variable of its own)
+                    for c_ in ast.walk(fn):
+                        if isinstance(c_, (ast.ListComp, ast.SetComp, ast.GeneratorExp, ast.DictComp)):
+                            bound_ = {n.id for g in c_.generators for n in ast.walk(g.target) if isinstance(n, ast.Name)}
+                            for g_i, g in enumerate(c_.generators):
+                                own = [c_.elt] if hasattr(c_, 'elt') else [c_.key, c_.value]
+                                scope_nodes = own + [x for g2 in c_.generators for x in g2.ifs] + [g2.iter for g2 in c_.generators[1:]]
+                            for sn in scope_nodes:
+                                nest_nodes |= {id(n) for n in ast.walk(sn) if isinstance(n, ast.Name) and n.id in bound_}
                     leaked = any(isinstance(n, ast.Name) and n.id in local_names and id(n) not in nest_nodes and isinstance(n.ctx, ast.Load)
                                  for n in ast.walk(fn))
                     if not leaked:
@@ -5163,7 +5246,14 @@ def normalize_function(fn: ast.FunctionDef, module_helpers: Dict[str, ast.Functi
             h_ = module_helpers[f_.id]
             # a pure selector (comparisons, min / max, returns of its arguments - the thresholded interpolation moved to
             # module level) is a unit of its own: the rules that decide it on weak orderings follow the call
-            if not any(isinstance(n_, (ast.BinOp, ast.AugAssign)) for n_ in ast.walk(h_)) \
+            # (a predicate - every value it returns is a comparison, a connective of comparisons or True / False - is not)
+            def boolean(e_):
+                return isinstance(e_, ast.Compare) or (isinstance(e_, ast.Constant) and isinstance(e_.value, bool)) \
+                    or (isinstance(e_, ast.BoolOp) and all(boolean(v_) for v_ in e_.values)) \
+                    or (isinstance(e_, ast.UnaryOp) and isinstance(e_.op, ast.Not))
+            rets_ = [n_ for n_ in ast.walk(h_) if isinstance(n_, ast.Return)]
+            predicate = bool(rets_) and all(n_.value is not None and boolean(n_.value) for n_ in rets_)
+            if not predicate and not any(isinstance(n_, (ast.BinOp, ast.AugAssign)) for n_ in ast.walk(h_)) \
                     and all(isinstance(n_.func, ast.Name) and n_.func.id in ('min', 'max', 'fmin', 'fmax')
                             for n_ in ast.walk(h_) if isinstance(n_, ast.Call)):
                 return None
@@ -5206,6 +5296,8 @@ def normalize_function(fn: ast.FunctionDef, module_helpers: Dict[str, ast.Functi
 
     _hoist_walrus(fn)
     _strip_pass(fn.body)
+    _kwargs_rebuild_to_store(fn)
+    _unhoist_conditional_temps(fn)
     fn.body = _expand_ifexp(fn.body)
     _CmpDirFn(fn)
     _NegIndexFn(fn)
@@ -5213,6 +5305,7 @@ def normalize_function(fn: ast.FunctionDef, module_helpers: Dict[str, ast.Functi
     prev = None
     for _round in range(4):
         _invalidate()
+        _kwargs_rebuild_to_store(fn)
         fn.body = _expand_ifexp(fn.body)
         fn.body = _orient(fn.body, False, True)
         fn.body = _select_minmax(fn.body)
@@ -5245,6 +5338,7 @@ def normalize_function(fn: ast.FunctionDef, module_helpers: Dict[str, ast.Functi
         _order_block(fn.body)
         _invalidate()
         _hoist_common_return(fn)
+        _sink_return_into_adjusting_arms(fn)
         fn.body = _branch_motion(fn.body)
         _invalidate()
         _while_to_for(fn)
@@ -5277,6 +5371,10 @@ def normalize_function(fn: ast.FunctionDef, module_helpers: Dict[str, ast.Functi
         if cur == prev:
             break
         prev = cur
+    _CmpDirFn(fn)           # (operands of `and` / `or` are ordered by what they are after the substitutions)
+    body_ = [b for b in fn.body if not (isinstance(b, ast.Expr) and isinstance(b.value, ast.Constant))]
+    if len(body_) == 1 and isinstance(body_[0], ast.Return):
+        return              # an expression helper stays one expression (it is inlined as such, also into `elif` tests)
     _lengths_of_like_arrays(fn)
     _name_lengths(fn)
 
@@ -5302,7 +5400,21 @@ def _NegIndexFn(fn: ast.FunctionDef):
 
 
 def _CmpDirFn(fn: ast.FunctionDef):
+    stores: Dict[str, int] = {}
+    for n in ast.walk(fn):
+        if isinstance(n, ast.Name) and isinstance(n.ctx, (ast.Store, ast.Del)):
+            stores[n.id] = stores.get(n.id, 0) + 1
+    once = set()
+    for n in ast.walk(fn):
+        if isinstance(n, ast.Assign) and len(n.targets) == 1 and isinstance(n.targets[0], ast.Name) \
+                and stores.get(n.targets[0].id) == 1 and _is_count_expr(n.value) \
+                and any(isinstance(x, ast.Call) for x in ast.walk(n.value)) \
+                and n.targets[0].id not in _fn_params(fn):
+            once.add(n.targets[0].id)
+
     class T(_CmpDir):
+        int_names = frozenset(once)
+
         def visit_FunctionDef(self, node):
             if node is fn:
                 self.generic_visit(node)
@@ -5444,9 +5556,592 @@ def _hoist_walrus(fn: ast.FunctionDef) -> bool:
     return changed
 
 
+def _unhoist_conditional_temps(fn: ast.FunctionDef) -> bool:
+    """N50: `x = A if c else B` at the top level of the function - x assigned nowhere else, the expression made of names,
+    literals, + - *, comparisons, max / min / abs and subscripts only (nothing that could fail where the guarded spelling
+    does not: no division, no other call), and nothing it reads stored or mutated behind it - is a value computed ahead of
+    its uses (a loop invariant moved out of the loop): every use is the expression itself."""
+    changed = False
+    stores: Dict[str, int] = {}
+    for n in ast.walk(fn):
+        if isinstance(n, ast.Name) and isinstance(n.ctx, (ast.Store, ast.Del)):
+            stores[n.id] = stores.get(n.id, 0) + 1
+    if any(isinstance(n, (ast.Global, ast.Nonlocal)) for n in ast.walk(fn)):
+        return False
+
+    def safe(e: ast.AST) -> bool:
+        for n in ast.walk(e):
+            if isinstance(n, (ast.Name, ast.Constant, ast.Load, ast.IfExp, ast.Compare, ast.cmpop, ast.BoolOp, ast.boolop,
+                              ast.Subscript, ast.UnaryOp, ast.unaryop, ast.Add, ast.Sub, ast.Mult)):
+                continue
+            if isinstance(n, ast.BinOp) and isinstance(n.op, (ast.Add, ast.Sub, ast.Mult)):
+                continue
+            if isinstance(n, ast.Call) and isinstance(n.func, ast.Name) and n.func.id in ('max', 'min', 'abs', 'len') \
+                    and not n.keywords and not any(isinstance(a, ast.Starred) for a in n.args):
+                continue
+            return False
+        return True
+    k = 0
+    while k < len(fn.body):
+        st = fn.body[k]
+        if isinstance(st, ast.Assign) and len(st.targets) == 1 and isinstance(st.targets[0], ast.Name) \
+                and isinstance(st.value, ast.IfExp) and stores.get(st.targets[0].id) == 1 \
+                and st.targets[0].id not in _fn_params(fn) and safe(st.value):
+            x = st.targets[0].id
+            reads = _names_loaded(st.value)
+            tail = fn.body[k + 1:]
+            later = set()
+            for t in tail:
+                later |= mutated_names(t)
+            before_uses = any(isinstance(n, ast.Name) and n.id == x for b in fn.body[:k] for n in ast.walk(b))
+            nested_fn = any(isinstance(n, (ast.FunctionDef, ast.Lambda)) for t in tail for n in ast.walk(t))
+            n_uses = sum(1 for t in tail for n in ast.walk(t) if isinstance(n, ast.Name) and n.id == x and isinstance(n.ctx, ast.Load))
+            # (only a value that a loop consumes: a straight-line use is left to the ordinary expansion of conditional expressions)
+            in_loop = any(isinstance(n, ast.Name) and n.id == x for t in tail for lp in ast.walk(t) if isinstance(lp, (ast.For, ast.While))
+                          for b_ in lp.body for n in ast.walk(b_))
+            # (... and only ever copied into another variable - `v = x`, `v = e if c else x` -: a value that is an operand of
+            # something else stays the named local that the unchanged code has too)
+            copied = 0
+            for t in tail:
+                for a_ in ast.walk(t):
+                    if isinstance(a_, ast.Assign) and len(a_.targets) == 1 and isinstance(a_.targets[0], ast.Name):
+                        v_ = a_.value
+                        arms_ = [v_]
+                        while arms_ and isinstance(arms_[-1], ast.IfExp):
+                            last_ = arms_.pop()
+                            arms_ += [last_.body, last_.orelse]
+                        copied += sum(1 for e_ in arms_ if isinstance(e_, ast.Name) and e_.id == x)
+            if x not in reads and not (reads & later) and not before_uses and not nested_fn and 1 <= n_uses <= 6 and in_loop \
+                    and copied == n_uses:
+                for t in tail:
+                    _Subst(x, st.value).visit(t)
+                del fn.body[k]
+                changed = True
+                continue
+        k += 1
+    if changed:
+        ast.fix_missing_locations(fn)
+        _invalidate()
+    return changed
+
+
+def _fold_index_offsets(node: ast.AST):
+    """inside subscripts (indices and slice bounds are integers): `(i - 1) + 1` is `i`, `(i + 2) - 1` is `i + 1`"""
+    class F(ast.NodeTransformer):
+        def visit_BinOp(self, n):
+            self.generic_visit(n)
+            if isinstance(n.op, (ast.Add, ast.Sub)) and isinstance(n.right, ast.Constant) and type(n.right.value) is int \
+                    and isinstance(n.left, ast.BinOp) and isinstance(n.left.op, (ast.Add, ast.Sub)) \
+                    and isinstance(n.left.right, ast.Constant) and type(n.left.right.value) is int:
+                c = (n.left.right.value if isinstance(n.left.op, ast.Add) else -n.left.right.value) \
+                    + (n.right.value if isinstance(n.op, ast.Add) else -n.right.value)
+                if c == 0:
+                    return n.left.left
+                return ast.copy_location(ast.BinOp(left=n.left.left, op=ast.Add() if c > 0 else ast.Sub(),
+                                                   right=ast.Constant(value=abs(c))), n)
+            return n
+
+    class S(ast.NodeTransformer):
+        def visit_Subscript(self, n):
+            self.generic_visit(n)
+            n.slice = F().visit(n.slice)
+            return n
+    S().visit(node)
+
+
+def _sink_return_into_adjusting_arms(fn: ast.FunctionDef) -> bool:
+    """N51: the function ends `if c: <arm> else: <arm>` + `return E` where an arm is nothing but `w -= k` / `w += k` (an
+    integer literal k) of a local that E reads: that arm is `return E[w := w -/+ k]` (the update is dead behind it), the
+    other arm ends in `return E` - the form of an early return with the adjusted result spelled out."""
+    body = fn.body
+    if len(body) < 2 or not isinstance(body[-1], ast.Return) or body[-1].value is None or not isinstance(body[-2], ast.If):
+        return False
+    node, ret = body[-2], body[-1]
+    if any(isinstance(n, (ast.Global, ast.Nonlocal, ast.FunctionDef, ast.Lambda)) for st in body for n in ast.walk(st) if n is not fn):
+        return False
+    arms = [node.body, node.orelse]
+    if any(isinstance(st, ast.If) for a in arms for st in a) or any(terminates(a) for a in arms if a):
+        return False
+    E = ret.value
+    if not _is_pure_expr(E):
+        return False
+
+    def adjust(arm) -> Optional[ast.expr]:
+        if not arm:
+            return None
+        e = copy.deepcopy(E)
+        for st in arm:
+            if not (isinstance(st, ast.AugAssign) and isinstance(st.target, ast.Name) and isinstance(st.op, (ast.Add, ast.Sub))
+                    and isinstance(st.value, ast.Constant) and type(st.value.value) is int
+                    and st.target.id in _names_loaded(E) and st.target.id not in _fn_params(fn)):
+                return None
+            e = _Subst(st.target.id, ast.BinOp(left=ast.Name(id=st.target.id, ctx=ast.Load()), op=type(st.op)(),
+                                               right=copy.deepcopy(st.value))).visit(e)
+        return e
+    adj = [adjust(a) for a in arms]
+    if all(a is None for a in adj):
+        return False
+    if not all(isinstance(st, (ast.Assign, ast.AugAssign, ast.Expr)) for a in arms for st in a):
+        return False
+    for a, e in zip(arms, adj):
+        if e is not None:
+            r = ast.copy_location(ast.Return(value=e), ret)
+            _fold_index_offsets(r)
+            a[:] = [r]
+        else:
+            a.append(copy.deepcopy(ret))
+    del body[-1]
+    ast.fix_missing_locations(fn)
+    _invalidate()
+    return True
+
+
+def _explicit_checks(tree: ast.Module):
+    """N48: a check written out is the assertion it stands for: `if C: raise AssertionError(msg)` (with or without an else
+    part) is `assert not C, msg` followed by the else part; `not not X` is X."""
+    def is_assertion_raise(st):
+        if not (isinstance(st, ast.Raise) and st.cause is None and st.exc is not None):
+            return None
+        e = st.exc
+        if isinstance(e, ast.Name) and e.id == 'AssertionError':
+            return (None,)
+        if isinstance(e, ast.Call) and isinstance(e.func, ast.Name) and e.func.id == 'AssertionError' and not e.keywords \
+                and len(e.args) <= 1 and not any(isinstance(a, ast.Starred) for a in e.args):
+            return (e.args[0] if e.args else None,)
+        return None
+
+    def negate(c):
+        if isinstance(c, ast.UnaryOp) and isinstance(c.op, ast.Not):
+            return c.operand
+        return ast.copy_location(ast.UnaryOp(op=ast.Not(), operand=c), c)
+
+    def visit(block):
+        out = []
+        for st in block:
+            if isinstance(st, (ast.FunctionDef, ast.ClassDef)):
+                visit_into(st)
+                out.append(st)
+                continue
+            for b in _blocks_of(st):
+                b[:] = visit(b) or [ast.copy_location(ast.Pass(), st)]
+            if isinstance(st, ast.If) and len(st.body) == 1:
+                r = is_assertion_raise(st.body[0])
+                if r is not None:
+                    out.append(ast.copy_location(ast.Assert(test=negate(st.test), msg=r[0]), st))
+                    out.extend(s_ for s_ in st.orelse if not isinstance(s_, ast.Pass))
+                    continue
+            if isinstance(st, ast.If) and len(st.orelse) == 1 and st.body:
+                r = is_assertion_raise(st.orelse[0])
+                if r is not None:
+                    out.append(ast.copy_location(ast.Assert(test=st.test, msg=r[0]), st))
+                    out.extend(s_ for s_ in st.body if not isinstance(s_, ast.Pass))
+                    continue
+            out.append(st)
+        # N49: a predicate that answers in steps is the conjunction / disjunction it computes:
+        # `if C: return False` + `return E` is `return (not C) and E`; `if C: return True` + `return E` is `return C or E`
+        # (C a comparison or a negation, so that the value returned is the same object True / False)
+        while len(out) >= 2 and isinstance(out[-1], ast.Return) and out[-1].value is not None and isinstance(out[-2], ast.If) \
+                and not out[-2].orelse and len(out[-2].body) == 1 and isinstance(out[-2].body[0], ast.Return) \
+                and isinstance(out[-2].body[0].value, ast.Constant) and isinstance(out[-2].body[0].value.value, bool) \
+                and not any(isinstance(x, ast.NamedExpr) for x in ast.walk(out[-2].test)):
+            c, e, v = out[-2].test, out[-1].value, out[-2].body[0].value.value
+            def boolean(x):
+                return isinstance(x, ast.Compare) or (isinstance(x, ast.UnaryOp) and isinstance(x.op, ast.Not)) \
+                    or (isinstance(x, ast.BoolOp) and all(boolean(y) for y in x.values))
+
+            def join(op, parts):
+                vals = []
+                for p_ in parts:
+                    vals.extend(p_.values if isinstance(p_, ast.BoolOp) and isinstance(p_.op, op) else [p_])
+                return ast.BoolOp(op=op(), values=vals)
+            if v is False:
+                new = join(ast.And, [negate(c), e])
+            elif boolean(c):
+                new = join(ast.Or, [c, e])
+            else:
+                break
+            out[-2:] = [ast.copy_location(ast.Return(value=ast.copy_location(new, c)), out[-2])]
+        return out
+
+    def visit_into(node):
+        node.body[:] = visit(node.body) or [ast.Pass()]
+    visit_into(tree)
+    ast.fix_missing_locations(tree)
+
+
+def _kwargs_rebuild_to_store(fn: ast.FunctionDef) -> bool:
+    """N52 on one function (also run after helpers were folded in)"""
+    kw = fn.args.kwarg.arg if fn.args.kwarg else None
+    if not kw:
+        return False
+    changed = False
+
+    def rewrite(block):
+        nonlocal changed
+        out = []
+        for st in block:
+            if isinstance(st, (ast.FunctionDef, ast.ClassDef)):
+                out.append(st)
+                continue
+            for b in _blocks_of(st):
+                b[:] = rewrite(b) or [ast.copy_location(ast.Pass(), st)]
+            if isinstance(st, ast.Assign) and len(st.targets) == 1 and isinstance(st.targets[0], ast.Name) and st.targets[0].id == kw:
+                v = st.value
+                items = None
+                if isinstance(v, ast.Call) and isinstance(v.func, ast.Name) and v.func.id == 'dict' and len(v.args) == 1 \
+                        and isinstance(v.args[0], ast.Name) and v.args[0].id == kw and v.keywords \
+                        and all(k.arg is not None for k in v.keywords):
+                    items = [(ast.Constant(value=k.arg), k.value) for k in v.keywords]
+                elif isinstance(v, ast.Dict) and len(v.keys) >= 2 and v.keys[0] is None and isinstance(v.values[0], ast.Name) \
+                        and v.values[0].id == kw and all(isinstance(k, ast.Constant) and isinstance(k.value, str) for k in v.keys[1:]):
+                    items = list(zip(v.keys[1:], v.values[1:]))
+                if items is not None and not any(kw in _names_loaded(val) for _, val in items):
+                    for key, val in items:
+                        out.append(_fix(ast.Assign(targets=[ast.Subscript(value=ast.Name(id=kw, ctx=ast.Load()), slice=key,
+                                                                          ctx=ast.Store())], value=val), st))
+                    changed = True
+                    continue
+            # N56: `x = g(D if x is None else x)` is `if x is None: x = D` + `x = g(x)`
+            if isinstance(st, ast.Assign) and len(st.targets) == 1 and isinstance(st.targets[0], ast.Name) \
+                    and isinstance(st.value, ast.Call) and len(st.value.args) == 1 and not st.value.keywords \
+                    and isinstance(st.value.args[0], ast.IfExp) and _is_pure_expr(st.value.func):
+                x, ie = st.targets[0].id, st.value.args[0]
+                t_ = ie.test
+                is_none = isinstance(t_, ast.Compare) and len(t_.ops) == 1 and isinstance(t_.left, ast.Name) and t_.left.id == x \
+                    and isinstance(t_.comparators[0], ast.Constant) and t_.comparators[0].value is None
+                if is_none and isinstance(t_.ops[0], ast.Is) and isinstance(ie.orelse, ast.Name) and ie.orelse.id == x \
+                        and x not in _names_loaded(st.value.func):
+                    out.append(_fix(ast.If(test=t_, body=[_fix(ast.Assign(targets=[ast.Name(id=x, ctx=ast.Store())], value=ie.body), st)],
+                                           orelse=[]), st))
+                    st.value.args[0] = ast.copy_location(ast.Name(id=x, ctx=ast.Load()), ie)
+                    changed = True
+                elif is_none and isinstance(t_.ops[0], ast.IsNot) and isinstance(ie.body, ast.Name) and ie.body.id == x \
+                        and x not in _names_loaded(st.value.func):
+                    t2 = ast.copy_location(ast.Compare(left=t_.left, ops=[ast.Is()], comparators=t_.comparators), t_)
+                    out.append(_fix(ast.If(test=t2, body=[_fix(ast.Assign(targets=[ast.Name(id=x, ctx=ast.Store())], value=ie.orelse), st)],
+                                           orelse=[]), st))
+                    st.value.args[0] = ast.copy_location(ast.Name(id=x, ctx=ast.Load()), ie)
+                    changed = True
+            out.append(st)
+        return out
+    fn.body[:] = rewrite(fn.body) or [ast.Pass()]
+    if changed:
+        ast.fix_missing_locations(fn)
+        _invalidate()
+    return changed
+
+
+def _keyword_plumbing(tree: ast.Module):
+    """N52: `kwargs = dict(kwargs, K=v)` / `kwargs = {**kwargs, 'K': v}` on the function's own `**kwargs` dictionary (nobody
+    else holds it) is `kwargs['K'] = v`.  N53: a nested `def g(a, b, **kw): return f(a, b, k=v, **kw)` - the positional
+    parameters handed on in order, keywords bound to names of the enclosing function that are not assigned behind the
+    definition - is `g = partial(f, k=v)`."""
+    need_partial = False
+
+    def visit_fn(fn: ast.FunctionDef):
+        nonlocal need_partial
+        kw = fn.args.kwarg.arg if fn.args.kwarg else None
+
+        def rewrite(block):
+            out = []
+            for k_, st in enumerate(block):
+                if isinstance(st, (ast.FunctionDef, ast.ClassDef)):
+                    out.append(st)
+                    continue
+                for b in _blocks_of(st):
+                    b[:] = rewrite(b) or [ast.copy_location(ast.Pass(), st)]
+                if kw and isinstance(st, ast.Assign) and len(st.targets) == 1 and isinstance(st.targets[0], ast.Name) \
+                        and st.targets[0].id == kw:
+                    v = st.value
+                    items = None
+                    if isinstance(v, ast.Call) and isinstance(v.func, ast.Name) and v.func.id == 'dict' and len(v.args) == 1 \
+                            and isinstance(v.args[0], ast.Name) and v.args[0].id == kw and v.keywords \
+                            and all(k.arg is not None for k in v.keywords):
+                        items = [(ast.Constant(value=k.arg), k.value) for k in v.keywords]
+                    elif isinstance(v, ast.Dict) and len(v.keys) >= 2 and v.keys[0] is None and isinstance(v.values[0], ast.Name) \
+                            and v.values[0].id == kw and all(isinstance(k, ast.Constant) and isinstance(k.value, str) for k in v.keys[1:]):
+                        items = list(zip(v.keys[1:], v.values[1:]))
+                    if items is not None and not any(kw in _names_loaded(val) for _, val in items):
+                        for key, val in items:
+                            out.append(_fix(ast.Assign(targets=[ast.Subscript(value=ast.Name(id=kw, ctx=ast.Load()), slice=key,
+                                                                              ctx=ast.Store())], value=val), st))
+                        continue
+                out.append(st)
+            return out
+        fn.body[:] = rewrite(fn.body) or [ast.Pass()]
+        # closures that only bind keywords
+        stores_after: Dict[int, Set[str]] = {}
+
+        def closures(block):
+            nonlocal need_partial
+            for k_, st in enumerate(block):
+                if isinstance(st, ast.FunctionDef):
+                    g = st
+                    body = [b for b in g.body if not (isinstance(b, ast.Expr) and isinstance(b.value, ast.Constant))]
+                    a = g.args
+                    if len(body) == 1 and isinstance(body[0], ast.Return) and isinstance(body[0].value, ast.Call) \
+                            and isinstance(body[0].value.func, ast.Name) and not g.decorator_list \
+                            and not a.vararg and not a.kwonlyargs and not a.posonlyargs and not a.defaults and a.kwarg:
+                        call = body[0].value
+                        ps = [x.arg for x in a.args]
+                        kws = [k for k in call.keywords if k.arg is not None]
+                        stars = [k for k in call.keywords if k.arg is None]
+                        later = set()
+                        for t in block[k_ + 1:]:
+                            later |= mutated_names(t)
+                        if [ast.unparse(x) for x in call.args] == ps and len(stars) == 1 and isinstance(stars[0].value, ast.Name) \
+                                and stars[0].value.id == a.kwarg.arg and call.keywords[-1] is stars[0] and kws \
+                                and all(isinstance(k.value, (ast.Name, ast.Constant)) for k in kws) \
+                                and not any(isinstance(k.value, ast.Name) and (k.value.id in ps or k.value.id == a.kwarg.arg
+                                                                             or k.value.id in later) for k in kws) \
+                                and call.func.id != g.name and call.func.id not in ps:
+                            new = ast.Assign(targets=[ast.Name(id=g.name, ctx=ast.Store())],
+                                             value=ast.Call(func=ast.Name(id='partial', ctx=ast.Load()),
+                                                            args=[ast.Name(id=call.func.id, ctx=ast.Load())],
+                                                            keywords=[ast.keyword(arg=k.arg, value=k.value) for k in kws]))
+                            block[k_] = _fix(new, g)
+                            need_partial = True
+                            continue
+                    visit_fn(st)
+                elif not isinstance(st, ast.ClassDef):
+                    for b in _blocks_of(st):
+                        closures(b)
+        closures(fn.body)
+        # N55: a keyword dictionary built once from names / literals, never changed, and only ever unpacked into calls
+        # (`kw = dict(a=a, b=False)` ... `f(x, **kw)`) is those keywords at the calls
+        k_ = 0
+        while k_ < len(fn.body):
+            st = fn.body[k_]
+            items = None
+            if isinstance(st, ast.Assign) and len(st.targets) == 1 and isinstance(st.targets[0], ast.Name):
+                v = st.value
+                if isinstance(v, ast.Call) and isinstance(v.func, ast.Name) and v.func.id == 'dict' and not v.args and v.keywords \
+                        and all(k.arg is not None for k in v.keywords):
+                    items = [(k.arg, k.value) for k in v.keywords]
+                elif isinstance(v, ast.Dict) and v.keys and all(isinstance(k, ast.Constant) and isinstance(k.value, str)
+                                                                and k.value.isidentifier() for k in v.keys):
+                    items = [(k.value, val) for k, val in zip(v.keys, v.values)]
+            if items is not None and all(isinstance(val, (ast.Name, ast.Constant)) for _, val in items):
+                D = st.targets[0].id
+                tail = fn.body[k_ + 1:]
+                later = set()
+                for t in tail:
+                    later |= mutated_names(t, calls=False)      # (`**D` hands out a copy; the values are names / literals)
+                uses = [n for t in tail for n in ast.walk(t) if isinstance(n, ast.Name) and n.id == D]
+                stars = [kw_ for t in tail for c in ast.walk(t) if isinstance(c, ast.Call) for kw_ in c.keywords
+                         if kw_.arg is None and isinstance(kw_.value, ast.Name) and kw_.value.id == D]
+                n_defs = sum(1 for n in ast.walk(fn) if isinstance(n, ast.Name) and n.id == D and isinstance(n.ctx, ast.Store))
+                before = any(isinstance(n, ast.Name) and n.id == D for b in fn.body[:k_] for n in ast.walk(b))
+                nested_def = any(isinstance(n, (ast.FunctionDef, ast.Lambda)) for t in tail for n in ast.walk(t))
+                if uses and len(uses) == len(stars) and n_defs == 1 and not before and not nested_def and D not in later \
+                        and D != kw and D not in _fn_params(fn) \
+                        and not any(isinstance(val, ast.Name) and val.id in later for _, val in items):
+                    ok_ = True
+                    for t in tail:
+                        for c in ast.walk(t):
+                            if isinstance(c, ast.Call) and any(kw_ in stars for kw_ in c.keywords):
+                                given = {kw_.arg for kw_ in c.keywords if kw_.arg}
+                                if given & {k for k, _ in items} or sum(1 for kw_ in c.keywords if kw_.arg is None) != 1:
+                                    ok_ = False
+                    if ok_:
+                        for t in tail:
+                            for c in ast.walk(t):
+                                if isinstance(c, ast.Call) and any(kw_ in stars for kw_ in c.keywords):
+                                    c.keywords = [kw_ for kw_ in c.keywords if kw_ not in stars] + \
+                                        [ast.keyword(arg=k, value=copy.deepcopy(val)) for k, val in items]
+                        del fn.body[k_]
+                        continue
+            k_ += 1
+
+    def top(block):
+        for st in block:
+            if isinstance(st, ast.FunctionDef):
+                visit_fn(st)
+            elif isinstance(st, ast.ClassDef):
+                top(st.body)
+            elif isinstance(st, (ast.If, ast.Try)):
+                for b in _blocks_of(st):
+                    top(b)
+    bound = {(a.asname or a.name).split('.')[0] for n in ast.walk(tree) if isinstance(n, (ast.Import, ast.ImportFrom)) for a in n.names}
+    has_partial = any(isinstance(n, ast.ImportFrom) and n.module == 'functools' and any((a.asname or a.name) == 'partial' for a in n.names)
+                      for n in ast.walk(tree))
+    other_partial = ('partial' in bound and not has_partial) or any(
+        (isinstance(n, ast.Name) and n.id == 'partial' and isinstance(n.ctx, ast.Store)) or
+        (isinstance(n, (ast.FunctionDef, ast.ClassDef)) and n.name == 'partial') or (isinstance(n, ast.arg) and n.arg == 'partial')
+        for n in ast.walk(tree))
+    if other_partial:
+        return
+    top(tree.body)
+    if need_partial and not has_partial:
+        imp = ast.ImportFrom(module='functools', names=[ast.alias(name='partial', asname=None)], level=0)
+        pos = 0
+        while pos < len(tree.body) and ((isinstance(tree.body[pos], ast.Expr) and isinstance(tree.body[pos].value, ast.Constant))
+                                        or (isinstance(tree.body[pos], ast.ImportFrom) and tree.body[pos].module == '__future__')):
+            pos += 1
+        if tree.body:
+            ast.copy_location(imp, tree.body[0])
+        tree.body.insert(pos, imp)
+    ast.fix_missing_locations(tree)
+
+
+def _is_effect_free_prefix(expr: ast.AST, call: ast.Call) -> bool:
+    """`call` is the first thing that `expr` evaluates: it is `expr` itself, or the object of the outermost call chain
+    (`f()(args)`, `f()(args).m(x)`): nothing with an effect is evaluated in front of its function position"""
+    cur = expr
+    while True:
+        if cur is call:
+            return True
+        if isinstance(cur, ast.Call):
+            cur = cur.func
+        elif isinstance(cur, ast.Attribute):
+            cur = cur.value
+        elif isinstance(cur, ast.Tuple) and cur.elts:
+            cur = cur.elts[0]
+        else:
+            return False
+
+
+def _inline_backend_loaders(tree: ast.Module):
+    """N54: the backend selection factored into a loader.  (A) `def _load(): try: from M import f as impl / except
+    ImportError: <stmts>; from M2 import g as impl / return impl` called as `X = _load()` is that try statement with the
+    alias X at the call site.  (B) `def _load(): try: from M import f / except ImportError: return None / return f` (or
+    `from P import mod` ... `return getattr(mod, name)` with a literal name at the call site) called as `X = _load(..)` in
+    front of `if X is not None: A else: B` is `try: from M import f as X; A / except ImportError: B`."""
+    loaders: Dict[str, tuple] = {}
+    for st in tree.body:
+        if not isinstance(st, ast.FunctionDef) or st.decorator_list:
+            continue
+        body = [b for b in st.body if not (isinstance(b, ast.Expr) and isinstance(b.value, ast.Constant))]
+        if not body or not isinstance(body[0], ast.Try) or len(body) > 2:
+            continue
+        tr = body[0]
+        if tr.orelse or tr.finalbody or len(tr.handlers) != 1 or not isinstance(tr.handlers[0].type, ast.Name) \
+                or tr.handlers[0].type.id != 'ImportError' or tr.handlers[0].name:
+            continue
+        tb, hb = list(tr.body), list(tr.handlers[0].body)
+        # returns inside the arms are the same thing as one return behind the try statement
+        ret_t = ret_h = None
+        if len(body) == 2:
+            if not (isinstance(body[1], ast.Return) and body[1].value is not None):
+                continue
+            ret_t = ret_h = body[1].value
+            if hb and isinstance(hb[-1], ast.Return):
+                ret_h = hb[-1].value
+                hb = hb[:-1]
+        else:
+            if not (tb and isinstance(tb[-1], ast.Return) and hb and isinstance(hb[-1], ast.Return)):
+                continue
+            ret_t, ret_h = tb[-1].value, hb[-1].value
+            tb, hb = tb[:-1], hb[:-1]
+        if ret_t is None or ret_h is None:
+            continue
+        if not (len(tb) == 1 and isinstance(tb[0], ast.ImportFrom) and len(tb[0].names) == 1):
+            continue
+        imp = tb[0]
+        bound = imp.names[0].asname or imp.names[0].name
+        a = st.args
+        if a.vararg or a.kwarg or a.kwonlyargs or a.posonlyargs or a.defaults:
+            continue
+        none_h = isinstance(ret_h, ast.Constant) and ret_h.value is None and not hb
+        if not a.args and isinstance(ret_t, ast.Name) and ret_t.id == bound and hb and isinstance(hb[-1], ast.ImportFrom) \
+                and len(hb[-1].names) == 1 and isinstance(ret_h, ast.Name) \
+                and (hb[-1].names[0].asname or hb[-1].names[0].name) == ret_h.id \
+                and not any(isinstance(n, (ast.Return, ast.FunctionDef, ast.Lambda)) for h_ in hb for n in ast.walk(h_)) \
+                and not any({bound, ret_h.id} & _names_loaded(h_) for h_ in hb[:-1]):
+            loaders[st.name] = ('A', st, imp, hb, bound)
+        elif none_h:
+            if not a.args and isinstance(ret_t, ast.Name) and ret_t.id == bound:
+                loaders[st.name] = ('B', st, imp, None, bound)
+            elif len(a.args) == 1 and isinstance(ret_t, ast.Call) and isinstance(ret_t.func, ast.Name) \
+                    and ret_t.func.id == 'getattr' and len(ret_t.args) == 2 and not ret_t.keywords \
+                    and isinstance(ret_t.args[0], ast.Name) and ret_t.args[0].id == bound \
+                    and isinstance(ret_t.args[1], ast.Name) and ret_t.args[1].id == a.args[0].arg:
+                loaders[st.name] = ('G', st, imp, None, bound)
+    if not loaders:
+        return
+    # a loader that is also used as a value (passed around) stays
+    for n in ast.walk(tree):
+        if isinstance(n, ast.Name) and n.id in loaders and isinstance(n.ctx, ast.Store):
+            loaders.pop(n.id, None)
+
+    def import_as(imp: ast.ImportFrom, kind: str, call: ast.Call, x: str) -> Optional[ast.ImportFrom]:
+        if kind == 'G':
+            if not (len(call.args) == 1 and isinstance(call.args[0], ast.Constant) and isinstance(call.args[0].value, str)
+                    and call.args[0].value.isidentifier() and not call.keywords):
+                return None
+            module = ((imp.module + '.') if imp.module else '') + imp.names[0].name
+            return ast.ImportFrom(module=module, names=[ast.alias(name=call.args[0].value, asname=x)], level=imp.level)
+        if call.args or call.keywords:
+            return None
+        return ast.ImportFrom(module=imp.module, names=[ast.alias(name=imp.names[0].name, asname=x)], level=imp.level)
+
+    def rewrite(block):
+        k = 0
+        while k < len(block):
+            st = block[k]
+            if isinstance(st, (ast.FunctionDef, ast.ClassDef)):
+                if isinstance(st, ast.FunctionDef) and st.name in loaders:
+                    k += 1
+                    continue
+                rewrite(st.body)
+                k += 1
+                continue
+            for b in _blocks_of(st):
+                rewrite(b)
+            # the loader called in place (`_load()(a, b)`) first binds a name
+            if isinstance(st, (ast.Assign, ast.Return, ast.Expr)) and st.value is not None:
+                direct = [c for c in ast.walk(st.value) if isinstance(c, ast.Call) and isinstance(c.func, ast.Call)
+                          and isinstance(c.func.func, ast.Name) and c.func.func.id in loaders and loaders[c.func.func.id][0] == 'A'
+                          and not c.func.args and not c.func.keywords]
+                if len(direct) == 1 and _is_effect_free_prefix(st.value, direct[0]):
+                    nm = f"{direct[0].func.func.id.lstrip('_')}__impl"
+                    bind = _fix(ast.Assign(targets=[ast.Name(id=nm, ctx=ast.Store())], value=direct[0].func), st)
+                    direct[0].func = ast.copy_location(ast.Name(id=nm, ctx=ast.Load()), direct[0].func)
+                    block.insert(k, bind)
+                    st = bind
+            if isinstance(st, ast.Assign) and len(st.targets) == 1 and isinstance(st.targets[0], ast.Name) \
+                    and isinstance(st.value, ast.Call) and isinstance(st.value.func, ast.Name) and st.value.func.id in loaders:
+                kind, ld, imp, hb, bound = loaders[st.value.func.id]
+                x = st.targets[0].id
+                if kind == 'A':
+                    i1 = import_as(imp, 'A', st.value, x)
+                    if i1 is not None:
+                        h2 = [copy.deepcopy(h_) for h_ in hb[:-1]]
+                        last = hb[-1]
+                        h2.append(ast.ImportFrom(module=last.module, names=[ast.alias(name=last.names[0].name, asname=x)], level=last.level))
+                        new = ast.Try(body=[i1], handlers=[ast.ExceptHandler(type=ast.Name(id='ImportError', ctx=ast.Load()), name=None,
+                                                                              body=h2)], orelse=[], finalbody=[])
+                        block[k] = _fix(new, st)
+                        k += 1
+                        continue
+                elif k + 1 < len(block) and isinstance(block[k + 1], ast.If):
+                    nxt = block[k + 1]
+                    t_ = nxt.test
+                    if isinstance(t_, ast.Compare) and len(t_.ops) == 1 and isinstance(t_.ops[0], ast.IsNot) \
+                            and isinstance(t_.left, ast.Name) and t_.left.id == x and isinstance(t_.comparators[0], ast.Constant) \
+                            and t_.comparators[0].value is None:
+                        i1 = import_as(imp, kind, st.value, x)
+                        if i1 is not None:
+                            new = ast.Try(body=[i1] + nxt.body,
+                                          handlers=[ast.ExceptHandler(type=ast.Name(id='ImportError', ctx=ast.Load()), name=None,
+                                                                      body=nxt.orelse or [ast.Pass()])], orelse=[], finalbody=[])
+                            block[k:k + 2] = [_fix(new, st)]
+                            k += 1
+                            continue
+            k += 1
+    rewrite(tree.body)
+    # loaders that are no longer referenced are gone
+    refs = {n.id for n in ast.walk(tree) if isinstance(n, ast.Name)}
+    tree.body[:] = [st for st in tree.body if not (isinstance(st, ast.FunctionDef) and st.name in loaders and st.name not in refs)]
+    ast.fix_missing_locations(tree)
+
+
 def normalize_module(tree: ast.Module, imported_helpers: Optional[Dict[str, ast.FunctionDef]] = None,
                      backend: bool = False) -> ast.Module:
     _specialise_flags(tree)
+    _explicit_checks(tree)
+    _keyword_plumbing(tree)
+    _inline_backend_loaders(tree)
     _modern_syntax(tree)
     helpers = dict(imported_helpers or {})
     helpers.update(_module_helpers(tree, backend))
